@@ -19,7 +19,8 @@ ASSUMPTIONS = ['Boehm\'s theorem (the matrix proved to be computed represents th
 
 
 def contracts(tier):
-    return bspline_c05.CONTRACTS + [bspline.findspan_m]
+    from contracts import hierarchical
+    return bspline_c05.CONTRACTS + [bspline.findspan_m, hierarchical.position_index]
 
 
 def extra_obligations(tier):
